@@ -436,7 +436,10 @@ class HistSat(Hist):
                 for _ in range(rng.randint(1, 4)):
                     self.rewrite(rng, rn, taken, keep=set())
                 if flavour == 'one-gate-off':
-                    cands = [g for g in rn.gates if rn.gates[g][0] in ('AND', 'OR', 'XOR', 'NAND', 'NOR', 'NXOR')]
+                    # (OR -> XOR and NOR -> NXOR only for gates of at most 10 operands: the clause set of an n-ary parity
+                    # gate has 2^n clauses, and the `big_or` of a miter used as an operand can have 28 operands)
+                    cands = [g for g in rn.gates if rn.gates[g][0] in ('AND', 'OR', 'XOR', 'NAND', 'NOR', 'NXOR')
+                             and (len(rn.gates[g][1]) <= 10 or rn.gates[g][0] not in ('OR', 'NOR'))]
                     if cands:
                         g = rng.choice(cands)
                         t, ops = rn.gates[g]
